@@ -1458,6 +1458,19 @@ class Interp:
             from .builtins import BUILTINS
             if fv.name in BUILTINS and not isinstance(BUILTINS[fv.name], PType):
                 return self.call(BUILTINS[fv.name], args, kwargs)
+            if fv.name == 'dict':
+                # dict(k=v, ...), dict(mapping) and dict(iterable of (concrete key, value) pairs)
+                out = {}
+                if args:
+                    src = args[0]
+                    if isinstance(src, dict):
+                        out.update(src)
+                    else:
+                        for pair in self.iterate_concrete(src, what="dict() of a symbolic-length iterable"):
+                            k, v = self.iterate_concrete(pair)
+                            out[k] = v
+                out.update(kwargs)
+                return out
         if is_z3(fv) and '__call_symbolic__' in self.globals:
             return self.globals['__call_symbolic__'](self, fv, args, kwargs)
         if isinstance(fv, PObj) and '__call__' in fv.methods:
